@@ -5,12 +5,19 @@
    no mapped kernel reduces over its block; the NumPy backend runs the same
    kernel; the global reductions are taken at plan level on the whole array.
    An edit like depth=(pad_w, pad_h), depth=(0, 1), boundary=0 or moving
-   np.nanmin into the mapped function makes this file fail to compile. *)
+   np.nanmin into the mapped function, or a layer name= whose token leaves out
+   an argument, makes this file fail to compile. *)
 Require Import Base.Prelude C01.Model C01.ProofsChunk C01.Generated.
 Require Import Coq.Strings.String.
 
+(* an explicit layer name must be a function of EVERY argument of the mapped call:
+   two lazy results with the same name share their task keys, and computing them
+   together silently gives one of them the other's blocks *)
+Definition name_ok (n : taskname) : Prop :=
+  match n with NameAuto => True | NameToken u => u = [] | NameFixed => False end.
+
 Definition plan_ok (p : plan) : Prop :=
-  p_block_reductions p = [] /\ p_same_kernel p = true /\
+  p_block_reductions p = [] /\ p_same_kernel p = true /\ name_ok (p_name p) /\
   match p_kind p with
   | MapOverlap =>
       p_boundary p = BNaN /\
@@ -22,8 +29,8 @@ Definition plan_ok (p : plan) : Prop :=
 
 Ltac solve_plan :=
   unfold plan_ok;
-  cbn [p_block_reductions p_same_kernel p_kind p_boundary p_radius p_depth];
-  split; [reflexivity|]; split; [reflexivity|];
+  cbn [p_block_reductions p_same_kernel p_kind p_boundary p_radius p_depth p_name name_ok];
+  split; [reflexivity|]; split; [reflexivity|]; split; [first [exact I | reflexivity]|];
   first [ split; [reflexivity|]; intros kr kc Hkr Hkc; cbn [fst snd]; lia
         | intros kr kc Hkr Hkc; f_equal; lia ].
 
@@ -43,7 +50,7 @@ Theorem plan_overlap_sound (p : plan) :
       sumP cy = rows X -> sumP cx = cols X -> 0 < rows X -> 0 < cols X ->
       req (map_overlap nan F (fst (p_depth p kr kc)) (snd (p_depth p kr kc)) cy cx X) (F X).
 Proof.
-  intros (_ & _ & Hk) Hkind T nan F kr kc Hkr Hkc HL X cy cx Hcy Hcx Hr Hc.
+  intros (_ & _ & _ & Hk) Hkind T nan F kr kc Hkr Hkc HL X cy cx Hcy Hcx Hr Hc.
   rewrite Hkind in Hk. destruct Hk as (_ & Hd). destruct (Hd kr kc Hkr Hkc) as (H1 & H2).
   eapply map_overlap_whole; eauto.
 Qed.
@@ -57,7 +64,7 @@ Theorem plan_blocks_sound (p : plan) :
       sumP cy = rows X -> sumP cx = cols X -> 0 < rows X -> 0 < cols X ->
       req (map_blocks nan F cy cx X) (F X).
 Proof.
-  intros (_ & _ & Hk) Hkind T nan F kr kc Hkr Hkc HL X cy cx Hcy Hcx Hr Hc.
+  intros (_ & _ & _ & Hk) Hkind T nan F kr kc Hkr Hkc HL X cy cx Hcy Hcx Hr Hc.
   rewrite Hkind in Hk. rewrite (Hk kr kc Hkr Hkc) in HL. cbn [fst snd] in HL.
   now apply map_blocks_whole.
 Qed.
